@@ -451,15 +451,21 @@ class Compiler(object):
                 if resolved_member['type'] == 'OCTET STRING':
                     self.pre_process_default_value_octet_string(member)
 
-                if resolved_member['type'] == 'ENUMERATED' and self._numeric_enums:
+                if resolved_member['type'] == 'ENUMERATED':
+                    # The dictionary may have been compiled before
+                    # with another numeric_enums setting.
                     for item in resolved_member['values']:
                         if item == EXTENSION_MARKER:
                             continue
 
                         key, value = item
 
-                        if key == member['default']:
-                            member['default'] = value
+                        if member['default'] in [key, value]:
+                            if self._numeric_enums:
+                                member['default'] = value
+                            else:
+                                member['default'] = key
+
                             break
 
     def pre_process_default_value_bit_string(self, member, resolved_member):
